@@ -66,7 +66,46 @@ def runs_stream(ctx, nmax):
     ctx.count("boolean_vectors", len(vecs))
 
 
+def many_runs(ctx):
+    """one boolean vector with more runs than fit in sixteen bits (a year of minute data with a shower every other
+    minute): the masks are consumed one at a time, as the caller does"""
+    common.import_spowtd()
+    import spowtd.classify as cm
+    n_runs = ctx.rng.randint(66000, 72000)
+    v = np.zeros(2 * n_runs + 3, dtype=bool)
+    v[1:2 * n_runs:2] = True
+    # a few longer runs among the single-sample ones
+    for q in ctx.rng.sample(range(10, 2 * n_runs - 10, 2), 50):
+        v[q] = True
+    want = [list(r) for r in __import__("harness.classification", fromlist=["runs_of"]).runs_of([bool(x) for x in v])]
+    ob = "get_true_interval_masks on a vector with more than 65,536 runs = its maximal runs"
+    inp = {"function": "classify.get_true_interval_masks", "generator": "c03.many_runs", "length": int(len(v)), "runs": len(want),
+           "note": "too long to inline: regenerate with the seed (the replay re-runs the stream)"}
+    ctx.case(("many-runs", len(v)), True)
+    wit = None
+    try:
+        k = -1
+        with common.time_limit(300):
+            for k, mask in enumerate(cm.get_true_interval_masks(v)):
+                idx = np.flatnonzero(mask)
+                if k >= len(want) or [int(idx[0]), int(idx[-1]) + 1] != want[k] or len(idx) != want[k][1] - want[k][0]:
+                    wit = {"why": "the k-th mask is not the k-th maximal run", "k": k, "expected": want[k] if k < len(want) else None,
+                           "got": [int(idx[0]), int(idx[-1]) + 1, int(len(idx))]}
+                    break
+        if wit is None and k + 1 != len(want):
+            wit = {"why": "number of masks differs from the number of maximal runs", "masks": k + 1, "runs": len(want)}
+    except BaseException as e:  # noqa
+        if isinstance(e, KeyboardInterrupt):
+            raise
+        wit = {"why": "get_true_interval_masks fails on a boolean vector", "exception": "%s: %s" % (type(e).__name__, str(e)[:200])}
+    ctx.obligation(ob, wit is None)
+    if wit is not None:
+        ctx.violation("impl-violation", "maximalRuns", {"input": inp, "impl": wit.get("got") or wit.get("exception"),
+                      "oracle": {"name": "maximalRuns", "result": False, "witness": wit}})
+
+
 def run(ctx):
+    many_runs(ctx)
     if ctx.tier == "quick":
         runs_stream(ctx, 10)
         R.run_records(ctx, "C03", 240, field=2)
